@@ -106,7 +106,7 @@ def run(prop: str, tier: str) -> int:
         chunks, nspecs = group_chunks(use, 64 if bi == 0 else 16)
         n_be = 0
         for out in run_chunks("hfworker", "replay", chunks, backend=be, precision=prec, procs=16,
-                              kwargs={"props": props, "seed": sd * 1000 + bi}):
+                              kwargs={"props": props, "seed": sd * 1000 + bi, "extra_batch": tier == "thorough"}):
             if "machinery" in out:
                 raise Machinery(out["machinery"])
             total += out["n"]
